@@ -92,6 +92,16 @@ Theorem C18_retry_same_batch : forall vm env (evs : list event) (o : oracle) rs 
 Proof. exact send_events_retries. Qed.
 Print Assumptions C18_retry_same_batch.
 
+(* stopping the reader (service stop: the cancellation token drops the loop at an await point)
+   after any number n of POSTs: among the POSTs the host has seen, each event is in at most one
+   accepted (2xx) batch *)
+Theorem C18_stopped_at_most_once : forall vm env (evs : list event) (o : oracle) rs o' (n : nat),
+  send_events vm env evs o = Some (rs, o') ->
+  NoDup (map (fun e => from_event_log e vm env) evs) ->
+  NoDup (accepted (stopped_after n rs)).
+Proof. exact stopped_at_most_once. Qed.
+Print Assumptions C18_stopped_at_most_once.
+
 (* an event too large for any batch (alone it already reaches the limit) is dropped, exactly
    those are dropped, and every other event is still batched (in pop order) *)
 Theorem C18_oversize_dropped_not_blocking : forall vm env (evs : list event) (o : oracle) rs o',
